@@ -12,9 +12,13 @@ def run_check(prop, level, lean_modules, l2_funcs, assumptions, rule, explanatio
     l1 = run.l1(lean_modules)
     if not l1["build_ok"]:
         raise Infra("hand-written Lean library failed to build/audit: " + str(l1.get("bad")) + l1.get("log", "")[-800:])
+    import time
     nprog = 0
+    phase = {"L1": round(time.time() - run.t0, 1)}
     for f in l2_funcs:
+        t1 = time.time()
         nprog += int(f(run, rng, quick) or 0)
+        phase[f.__name__] = round(time.time() - t1, 1)
     run.cov.update(programs=nprog, disagreements_checked=nprog, evaluations=nprog, distinct_nontrivial=nprog, rule=rule)
     if explanation:
         run.cov["explanation"] = explanation
@@ -25,11 +29,14 @@ def run_check(prop, level, lean_modules, l2_funcs, assumptions, rule, explanatio
         run.cov["search_module"] = "absent"
     if mod is not None:
         ev0, dn0 = run.cov["evaluations"], run.cov["distinct_nontrivial"]
+        t1 = time.time()
         mod.search(run, rng, quick)
+        phase["search"] = round(time.time() - t1, 1)
         if run.cov.get("evaluations") != ev0:
             run.cov["search_evaluations"] = run.cov["evaluations"]
             run.cov["evaluations"] = ev0 + run.cov["search_evaluations"]
             run.cov["distinct_nontrivial"] = dn0 + run.cov.get("distinct_nontrivial", 0)
             run.cov["rule"] = rule + " || search: " + str(run.cov.get("rule", ""))
+    run.cov["phase_seconds"] = phase
     run.assumptions += assumptions
     return run.finish()
